@@ -39,7 +39,7 @@ pub fn plan_for(prop: &str, tier: Tier) -> Option<PropPlan> {
             plans: {
                 let mut v = vec![
                     Plan { shape: Shape::Step, groups: G_LAYOUT | G_BACKEND | G_CONSTRAINT, random: None, spec: spec("C01", OPS_C01, MON_MODEL, l) },
-                    Plan { shape: Shape::History, groups: G_LAYOUT | G_BACKEND | G_CONSTRAINT, random: Some((hc, ho)), spec: spec("C01", OPS_C01 | ops(&[OP_DRAIN]), MON_MODEL, l) },
+                    Plan { shape: Shape::History, groups: G_LAYOUT | G_BACKEND | G_CONSTRAINT, random: Some((hc, ho)), spec: spec("C01", ops(&[OP_MOVE]) | OPS_C01 | ops(&[OP_DRAIN]), MON_MODEL, l) },
                     Plan { shape: Shape::Threshold, groups: G_LAYOUT | G_BACKEND, random: None, spec: spec("C01", OPS_C01, MON_MODEL, l) },
                 ];
                 if !q {
@@ -75,7 +75,7 @@ pub fn plan_for(prop: &str, tier: Tier) -> Option<PropPlan> {
             bound: format!("exhaustive one-step for len<={}; proptest {} histories x <= {} ops per configuration", l, hc, ho),
             plans: vec![
                 Plan { shape: Shape::Step, groups: G_LAYOUT | G_BACKEND, random: None, spec: spec("C05", OPS_C01 | OPS_C02 | OPS_CAP | ops(&[OP_CLONE, OP_CLONE_EMPTY]), MON_MEM, l.min(4)) },
-                Plan { shape: Shape::History, groups: G_LAYOUT | G_BACKEND, random: Some((hc, ho)), spec: spec("C05", OPS_C01 | OPS_C02 | OPS_CAP | ops(&[OP_CLONE, OP_CLONE_EMPTY, OP_BULK_PUSH, OP_DROP_NEW]), MON_MEM, l) },
+                Plan { shape: Shape::History, groups: G_LAYOUT | G_BACKEND, random: Some((hc, ho)), spec: spec("C05", ops(&[OP_MOVE]) | OPS_C01 | OPS_C02 | OPS_CAP | ops(&[OP_CLONE, OP_CLONE_EMPTY, OP_BULK_PUSH, OP_DROP_NEW]), MON_MEM, l) },
                 Plan { shape: Shape::Threshold, groups: G_LAYOUT | G_BACKEND, random: None, spec: spec("C05", OPS_C01, MON_MEM, l) },
             ],
         }),
@@ -164,8 +164,10 @@ pub fn plan_for(prop: &str, tier: Tier) -> Option<PropPlan> {
                 Plan { shape: Shape::Grid, groups: G_GRID, random: None, spec: spec("C11", 0, MON_MODEL | MON_VALID | MON_NOALLOC | MON_CAP, 8) },
                 Plan { shape: Shape::Step, groups: G_STACK, random: None, spec: spec("C11", OPS_C01 | OPS_C02 | ops(&[OP_CLONE, OP_CLONE_EMPTY]), MON_MODEL | MON_VALID | MON_NOALLOC | MON_CAP | MON_CLONE, 8) },
                 Plan { shape: Shape::CloneThen, groups: G_STACK, random: None, spec: spec("C11", OPS_C01, MON_MODEL | MON_VALID | MON_NOALLOC | MON_CAP | MON_CLONE, 8) },
-                Plan { shape: Shape::History, groups: G_STACK, random: Some((hc, ho)), spec: spec("C11", OPS_C01 | OPS_C02 | ops(&[OP_CLONE, OP_CLONE_EMPTY, OP_DROP_NEW]), MON_MODEL | MON_VALID | MON_NOALLOC | MON_CAP | MON_CLONE, 8) },
+                Plan { shape: Shape::History, groups: G_STACK, random: Some((hc, ho)), spec: spec("C11", ops(&[OP_MOVE]) | OPS_C01 | OPS_C02 | ops(&[OP_CLONE, OP_CLONE_EMPTY, OP_DROP_NEW]), MON_MODEL | MON_VALID | MON_NOALLOC | MON_CAP | MON_CLONE, 8) },
                 Plan { shape: Shape::Threshold, groups: G_STACK, random: None, spec: spec("C11", OPS_C01, MON_MODEL | MON_VALID | MON_NOALLOC | MON_CAP, 8) },
+                // the vector value moves (inline storage travels with it) between two operations
+                Plan { shape: Shape::Step2, groups: G_STACK, random: None, spec: spec("C11", ops(&[OP_MOVE, OP_PUSH, OP_POP]), MON_MODEL | MON_VALID | MON_NOALLOC | MON_CAP, 2) },
             ],
         }),
         "C19" => Some(PropPlan {
@@ -175,7 +177,7 @@ pub fn plan_for(prop: &str, tier: Tier) -> Option<PropPlan> {
                 Plan { shape: Shape::Grid, groups: G_GRID, random: None, spec: spec("C19", 0, MON_MODEL | MON_VALID | MON_NOALLOC | MON_CAP, 8) },
                 Plan { shape: Shape::Step, groups: G_STACK, random: None, spec: spec("C19", OPS_C01 | OPS_C02 | ops(&[OP_CLONE, OP_CLONE_EMPTY]), MON_MODEL | MON_VALID | MON_NOALLOC | MON_CAP | MON_CLONE | MON_OWN, 8) },
                 Plan { shape: Shape::CloneThen, groups: G_STACK, random: None, spec: spec("C19", OPS_C01, MON_MODEL | MON_VALID | MON_NOALLOC | MON_CAP | MON_CLONE | MON_OWN, 8) },
-                Plan { shape: Shape::History, groups: G_STACK, random: Some((hc, ho)), spec: spec("C19", OPS_C01 | OPS_C02 | ops(&[OP_CLONE, OP_CLONE_EMPTY, OP_DROP_NEW]), MON_MODEL | MON_VALID | MON_NOALLOC | MON_CAP | MON_CLONE | MON_OWN, 8) },
+                Plan { shape: Shape::History, groups: G_STACK, random: Some((hc, ho)), spec: spec("C19", ops(&[OP_MOVE]) | OPS_C01 | OPS_C02 | ops(&[OP_CLONE, OP_CLONE_EMPTY, OP_DROP_NEW]), MON_MODEL | MON_VALID | MON_NOALLOC | MON_CAP | MON_CLONE | MON_OWN, 8) },
                 Plan { shape: Shape::Threshold, groups: G_STACK, random: None, spec: spec("C19", OPS_C01, MON_MODEL | MON_VALID | MON_NOALLOC | MON_CAP | MON_OWN, 8) },
             ],
         }),
@@ -185,7 +187,7 @@ pub fn plan_for(prop: &str, tier: Tier) -> Option<PropPlan> {
             plans: vec![
                 Plan { shape: Shape::Step, groups: G_LAYOUT | G_BACKEND | G_RAW, random: None, spec: spec("C12", ops(&[OP_VIEWS, OP_WRITE_SPARE, OP_PUSH, OP_INSERT, OP_REMOVE, OP_POP, OP_CLEAR, OP_RESERVE, OP_SHRINK_FIT, OP_SHRINK_TO, OP_CLONE, OP_CLONE_EMPTY, OP_DRAIN]), MON_VIEW, l.min(4)) },
                 Plan { shape: Shape::Placement, groups: G_LAYOUT | G_BACKEND | G_RAW | G_ALIGN, random: None, spec: spec("C12", ops(&[OP_VIEWS]), MON_VIEW, l) },
-                Plan { shape: Shape::History, groups: G_LAYOUT | G_BACKEND, random: Some((hc, ho)), spec: spec("C12", ops(&[OP_VIEWS, OP_WRITE_SPARE, OP_PUSH, OP_INSERT, OP_REMOVE, OP_POP, OP_CLEAR, OP_RESERVE, OP_RESERVE_EXACT, OP_SHRINK_FIT, OP_SHRINK_TO, OP_CLONE, OP_CLONE_EMPTY, OP_DRAIN, OP_SPLICE, OP_BULK_PUSH, OP_DROP_NEW]), MON_VIEW, l) },
+                Plan { shape: Shape::History, groups: G_LAYOUT | G_BACKEND, random: Some((hc, ho)), spec: spec("C12", ops(&[OP_MOVE]) | ops(&[OP_VIEWS, OP_WRITE_SPARE, OP_PUSH, OP_INSERT, OP_REMOVE, OP_POP, OP_CLEAR, OP_RESERVE, OP_RESERVE_EXACT, OP_SHRINK_FIT, OP_SHRINK_TO, OP_CLONE, OP_CLONE_EMPTY, OP_DRAIN, OP_SPLICE, OP_BULK_PUSH, OP_DROP_NEW]), MON_VIEW, l) },
             ],
         }),
         "C13" => Some(PropPlan {
@@ -193,7 +195,7 @@ pub fn plan_for(prop: &str, tier: Tier) -> Option<PropPlan> {
             bound: format!("exhaustive one-step for len<={} on all layouts; proptest {} histories x <= {} ops", l, hc, ho),
             plans: vec![
                 Plan { shape: Shape::Step, groups: G_LAYOUT | G_BACKEND, random: None, spec: spec("C13", ops(&[OP_GET, OP_MUTATE, OP_SWAP, OP_ITER]), MON_VIEW | MON_MODEL, l) },
-                Plan { shape: Shape::History, groups: G_LAYOUT | G_BACKEND, random: Some((hc, ho)), spec: spec("C13", ops(&[OP_GET, OP_MUTATE, OP_SWAP, OP_ITER, OP_PUSH, OP_REMOVE]), MON_VIEW | MON_MODEL, l) },
+                Plan { shape: Shape::History, groups: G_LAYOUT | G_BACKEND, random: Some((hc, ho)), spec: spec("C13", ops(&[OP_MOVE]) | ops(&[OP_GET, OP_MUTATE, OP_SWAP, OP_ITER, OP_PUSH, OP_REMOVE]), MON_VIEW | MON_MODEL, l) },
             ],
         }),
         "C17" => Some(PropPlan {
